@@ -115,7 +115,7 @@ impl PointCloud {
                 {
                     continue;
                 }
-                guids.push(n.text().unwrap_or("").to_owned())
+                guids.push(crate::xml::text_of(&n).unwrap_or_default())
             }
             Some(guids)
         } else {
